@@ -24,7 +24,7 @@ from ser import Ids, Ser, Unsupported, rat, env_text, bits_to_float
 from props import c13 as _c13
 
 LEAN_MODULE = "Optyx.Props.C12"
-EXTRA_MODULES = ["Optyx.Props.PinsC12", "Optyx.Props.BuildTie", "Optyx.Props.CompileEntryTie"]   # transcription anchors (harness/source_pins.py)
+EXTRA_MODULES = ["Optyx.Props.PinsC12", "Optyx.Props.BuildTie", "Optyx.Props.CompileEntryTie", "Optyx.Props.ParamTie"]   # transcription anchors (harness/source_pins.py)
 THEOREMS = [
     "Optyx.Props.C12.denote_substParams",
     "Optyx.Props.C12.grad_substParams",
@@ -41,6 +41,12 @@ THEOREMS = [
     "Optyx.Props.CompileEntryTie.dictFn_eq",
     "Optyx.Props.CompileEntryTie.param_run",
     "Optyx.Props.CompileEntryTie.compiledExpression_value",
+    "Optyx.Props.ParamTie.paramSet_raises_iff",
+    "Optyx.Props.ParamTie.paramSet_stores_converted",
+    "Optyx.Props.ParamTie.scalar_set_stores",
+    "Optyx.Props.ParamTie.reads_slot",
+    "Optyx.Props.ParamTie.asParameterValue_spec",
+    "Optyx.Props.ParamTie.read_after_set",
     "Optyx.Props.PinsC12.anchors",
 ]
 ASSUMPTIONS = [
